@@ -15,6 +15,7 @@ import (
 	"encoding/json"
 	"fmt"
 	"os"
+	"os/exec"
 	"path/filepath"
 	"regexp"
 	"runtime"
@@ -22,6 +23,7 @@ import (
 	"strings"
 	"sync"
 	"sync/atomic"
+	"syscall"
 	"time"
 
 	"verifharness/lib"
@@ -459,6 +461,58 @@ func hasCrash(res *lib.SubResult) (bool, string, string) {
 	return true, fr, tail
 }
 
+// sub runs `vh sub C11 <mode> args...` like lib.Ctx.Sub, but with a stderr file
+// named after the (unique) tag: children of this monitor run concurrently.
+func (m *monitor) sub(tag, mode string, args []string, timeout time.Duration) *lib.SubResult {
+	errPath := filepath.Join(m.c.Dir, tag+".stderr")
+	res := &lib.SubResult{StderrPath: errPath}
+	errf, err := os.Create(errPath)
+	if err != nil {
+		res.Code = 3
+		return res
+	}
+	defer errf.Close()
+	cmd := exec.Command(lib.Self, append([]string{"sub", m.c.ID, mode}, args...)...)
+	cmd.Stdin = nil
+	cmd.Stdout = errf
+	cmd.Stderr = errf
+	cmd.SysProcAttr = &syscall.SysProcAttr{Setpgid: true}
+	t0 := time.Now()
+	if err := cmd.Start(); err != nil {
+		res.Code = 3
+		return res
+	}
+	m.c.Count("children_started", 1)
+	done := make(chan error, 1)
+	go func() { done <- cmd.Wait() }()
+	var werr error
+	select {
+	case werr = <-done:
+	case <-time.After(timeout):
+		res.TimedOut = true
+		cmd.Process.Signal(syscall.SIGQUIT)
+		select {
+		case werr = <-done:
+		case <-time.After(15 * time.Second):
+			syscall.Kill(-cmd.Process.Pid, syscall.SIGKILL)
+			werr = <-done
+		}
+	}
+	syscall.Kill(-cmd.Process.Pid, syscall.SIGKILL)
+	res.Wall = time.Since(t0)
+	if werr != nil {
+		if ee, ok := werr.(*exec.ExitError); ok {
+			res.Code = ee.ExitCode()
+			if ws, ok := ee.Sys().(syscall.WaitStatus); ok && ws.Signaled() {
+				res.Signaled = true
+			}
+		} else {
+			res.Code = 3
+		}
+	}
+	return res
+}
+
 func (m *monitor) runChildLinger(tag, mode string, cases []*Case, tPark, tMax, linger int64) (*outParse, *lib.SubResult) {
 	in := filepath.Join(m.c.Dir, tag+".in.json")
 	out := filepath.Join(m.c.Dir, tag+".out")
@@ -467,7 +521,7 @@ func (m *monitor) runChildLinger(tag, mode string, cases []*Case, tPark, tMax, l
 	os.Remove(out)
 	m.c.Journal("C11 %s child %s: %d cases, first id=%d %s", mode, tag, len(cases), cases[0].ID, cases[0].Directive())
 	// the outer watchdog is only a backstop for the in-child progress monitor
-	res := m.c.Sub(mode, m.subArgs(in, out, tPark, tMax, linger), nil, nil, time.Duration(tMax)*time.Millisecond*4+20*time.Minute)
+	res := m.sub(tag, mode, m.subArgs(in, out, tPark, tMax, linger), time.Duration(tMax)*time.Millisecond*4+20*time.Minute)
 	o := parseOut(out)
 	os.Remove(in)
 	if (o.done || o.restart) && res.Code == 0 {
@@ -522,7 +576,7 @@ func (m *monitor) runBatch(tag, mode string, batch []*Case, judge func(*Case, *c
 			m.harness("batch %s: child ended (code %d) outside a load; last journal line %q; stderr %s", tag, res.Code, o.lastLine, res.StderrPath)
 			return
 		}
-		m.abnormal(tag, mode, k, o, res, judge)
+		m.abnormal(tag, mode, k, rem[:n+1], o, res, judge)
 		rem = rem[n+1:]
 	}
 }
@@ -556,7 +610,7 @@ func dumpExcerpt(dump string) string {
 }
 
 // abnormal decides what the end of a child in the middle of case k means.
-func (m *monitor) abnormal(tag, mode string, k *Case, o *outParse, res *lib.SubResult, judge func(*Case, *caseRes)) {
+func (m *monitor) abnormal(tag, mode string, k *Case, prefix []*Case, o *outParse, res *lib.SubResult, judge func(*Case, *caseRes)) {
 	c := m.c
 	dump := readDump(res.StderrPath)
 	witness := map[string]interface{}{
@@ -575,17 +629,50 @@ func (m *monitor) abnormal(tag, mode string, k *Case, o *outParse, res *lib.SubR
 		seen := m.deadlocks[key]
 		m.mu.Unlock()
 		if seen < 2 {
-			// confirm deterministically: alone in a fresh child with a longer window
-			o2, res2 := m.runChild(tag+"-confirm", mode, []*Case{k}, m.tParkMs.Load()*3, 60000)
-			f2 := parkedWorkerIn(readDump(res2.StderrPath))
-			if !(o2.stall != "" && f2 == frame) {
-				c.Inconclusive(fmt.Sprintf("load parked in %s once but not when re-run alone: %s", frame, k.Directive()))
-				if len(o2.results) == 1 {
-					judge(k, o2.results[0])
+			// confirm deterministically in fresh children with a longer window:
+			// the case alone, then after its predecessor, then after everything
+			// this child had loaded before (state left behind by earlier loads)
+			tries := [][]*Case{{k}}
+			if len(prefix) >= 2 {
+				tries = append(tries, prefix[len(prefix)-2:])
+			}
+			if len(prefix) > 2 {
+				tries = append(tries, prefix)
+			}
+			confirmed := false
+			var alone *caseRes
+			for i, t := range tries {
+				o2, res2 := m.runChild(fmt.Sprintf("%s-confirm%d", tag, i), mode, t, m.tParkMs.Load()*3, 60000)
+				f2 := parkedWorkerIn(readDump(res2.StderrPath))
+				if o2.stall != "" && f2 == frame && o2.pending && o2.pendID == k.ID {
+					confirmed = true
+					switch i {
+					case 0:
+						witness["confirmed"] = "re-run alone in a fresh process"
+					case 1:
+						witness["confirmed"] = "re-run in a fresh process after the preceding case"
+						witness["preceding_casketfile"] = t[0].Text("127.0.0.1:2015")
+					default:
+						witness["confirmed"] = fmt.Sprintf("re-run in a fresh process after the %d cases loaded before it", len(t)-1)
+						var prev []string
+						for j := len(t) - 2; j >= 0 && len(prev) < 10; j-- {
+							prev = append(prev, oneLine(t[j].Directive()))
+						}
+						witness["preceding_cases_most_recent_first"] = prev
+					}
+					break
+				}
+				if i == 0 && len(o2.results) == 1 {
+					alone = o2.results[0]
+				}
+			}
+			if !confirmed {
+				c.Inconclusive(fmt.Sprintf("load parked in %s once but not when re-run (alone, after its predecessor, after the whole batch prefix): %s", frame, oneLine(k.Directive())))
+				if alone != nil {
+					judge(k, alone)
 				}
 				return
 			}
-			witness["confirmed_alone"] = true
 		}
 		m.mu.Lock()
 		m.deadlocks[key]++
